@@ -585,6 +585,7 @@ func c06Listeners(r *ev.Run) {
 				at     time.Time // when the reply reached the monitor
 				sentAt time.Time
 				inter  bool
+				lost   bool // the listener was made to miss this reply's kernel transmit timestamp
 			}
 			var hist []rep
 			seenRX := map[uint64]bool{}
@@ -602,6 +603,22 @@ func c06Listeners(r *ev.Run) {
 					req.Origin = ref.f.Receive
 					req.Receive = peer.ToNTP64(ref.at)
 					wantInter = true
+				}
+				// failpoint (verif hook of net/udp): the kernel does not deliver the transmit timestamp of the
+				// next reply within the listener's poll timeout; it stays queued and turns up at the next read
+				lose := ci%3 == 2 && step > 2 && rng.IntN(6) == 0
+				if lose {
+					// the listener sends a reply before it reads that reply's timestamp: let a read that may
+					// still be pending for the previous reply finish before the failpoint is armed, and
+					// make sure it is still armed afterwards
+					time.Sleep(5 * time.Millisecond)
+					if !tgt.Command("LATETX 1", "LATETX", 3*time.Second) {
+						lose = false
+					} else if time.Sleep(3 * time.Millisecond); tgt.LateTXPending(3*time.Second) != 1 {
+						_ = tgt.Command("LATETX 0", "LATETX", 3*time.Second)
+						r.Class(tr.name + "-listener:failpoint fired for another read (history abandoned)")
+						break
+					}
 				}
 				sent := time.Now()
 				if err := uc.Send(tr.dst, tr.wrap(req.Bytes(), cli, uc.Local().Port())); err != nil {
@@ -635,7 +652,12 @@ func c06Listeners(r *ev.Run) {
 				if f.Receive < peer.ToNTP64(sent.Add(-time.Millisecond)) || f.Receive > peer.ToNTP64(at.Add(time.Millisecond)) {
 					r.Violation(tr.name+"-listener|wrong-reply:receive timestamp is not the time the request was received", id, w)
 				}
-				if interleaved {
+				if interleaved && ref.lost {
+					r.Violation(tr.name+"-listener|wrong-reply:exchange whose kernel transmit timestamp could not be read was kept and served in interleaved mode", id, w)
+				} else if wantInter && ref.lost {
+					r.Class(tr.name + "-listener:exchange with a lost transmit timestamp dropped")
+				}
+				if interleaved && !ref.lost {
 					// transmit = the kernel transmit time of the earlier reply: not before the software time that
 					// reply carried, not after the moment that reply reached the monitor, later than its receive time
 					// (the kernel stamps the datagram after the handler read the clock for the software time)
@@ -665,7 +687,18 @@ func c06Listeners(r *ev.Run) {
 						r.Class(tr.name + "-listener:basic-reply")
 					}
 				}
-				hist = append(hist, rep{f: f, at: at, sentAt: sent, inter: interleaved})
+				if lose {
+					time.Sleep(3 * time.Millisecond)
+					if tgt.LateTXPending(3*time.Second) != 0 {
+						_ = tgt.Command("LATETX 0", "LATETX", 3*time.Second)
+						r.Class(tr.name + "-listener:failpoint did not fire for this reply (history abandoned)")
+						break
+					}
+				}
+				hist = append(hist, rep{f: f, at: at, sentAt: sent, inter: interleaved, lost: lose})
+				if lose {
+					trace = append(trace, "(the kernel transmit timestamp of this reply was withheld from the listener)")
+				}
 				if len(hist) > 12 {
 					hist = hist[1:]
 				}
